@@ -235,8 +235,9 @@ func (app *App) processSubAppsRoutes() {
 				// Clone the sub-app's route
 				subAppRouteClone := app.copyRoute(subAppRoute)
 
-				// Add the parent route's path as a prefix to the sub-app's route
-				app.addPrefixToRoute(route.path, subAppRouteClone)
+				// Add the parent route's path as a prefix to the sub-app's route: the pattern as registered,
+				// route.path has lost the escape characters (`/v1\:beta` is not the parameter :beta)
+				app.addPrefixToRoute(route.Path, subAppRouteClone)
 
 				// Add the cloned sub-app's route to the slice of sub-app routes
 				subRoutes[j] = subAppRouteClone
